@@ -97,8 +97,15 @@ class Shard:
         types = pydsdl.read_namespace(str(self.src / self.ns), [], allow_unregulated_fixed_port_id=True)
         self.models: typing.Dict[str, pydsdl.CompositeType] = {t.short_name: t for t in types}
         self.all_types = list(types)
-        self.mains = [d for d in self.defs if d.layer != "L3i"]
-        self.main_models = [self.models[d.name] for d in self.mains]
+        # a service definition contributes two codec types (request, response), both described by the same TypeDef
+        self.mains, self.main_models = [], []
+        for d in self.defs:
+            if d.layer == "L3i":
+                continue
+            m = self.models[d.name]
+            for part in ([m.request_type, m.response_type] if isinstance(m, pydsdl.ServiceType) else [m]):
+                self.mains.append(d)
+                self.main_models.append(part)
         self._py: typing.Optional[pyrun.PyTarget] = None
 
     def cleanup(self) -> None:
